@@ -62,6 +62,12 @@ pub fn tape() -> BoxedStrategy<Vec<u8>> {
         3 => vec(prop_oneof![3 => INTERRUPT_FROM..=255u8, 2 => any::<u8>()], 1..64),
         3 => vec(any::<u8>(), 1..64),
         1 => vec(prop_oneof![Just(0u8), Just(1u8), Just(INTERRUPT_FROM)], 1..16),
+        // long runs of consecutive interruptions (a decoder that gives up after N retries needs N in a row)
+        3 => (1usize..48, vec(any::<u8>(), 1..6)).prop_map(|(k, tail)| {
+            let mut t = vec![0xFFu8; k];
+            t.extend(tail);
+            t
+        }),
     ]
     .boxed()
 }
